@@ -47,6 +47,12 @@ func renderRegList(rl veregister.RegisterList) string {
 	return sb.String()
 }
 
+// foreignField: a caller's own implementation of veconst.Field
+type foreignField struct{ i int }
+
+func (f foreignField) Idx() int       { return f.i }
+func (f foreignField) String() string { return "foreign" }
+
 type copyCheck struct {
 	n     int
 	fails []string
@@ -234,10 +240,25 @@ func runCopies() {
 		for _, raw := range []uint{0, 1, 0x5, 0x21, 0x205, 0xFFFF, 0xFFFFFFFF, 0} {
 			fl, _ := f.F.NewFieldList(raw)
 			base := renderFields(fl)
-			for step := 0; step < 4; step++ {
+			for step := 0; step < 6; step++ {
 				m := fl.Fields()
 				mut := ""
 				switch step {
+				case 4:
+					m[foreignField{100}] = true // a key of the caller's own Field type
+					m[foreignField{101}] = false
+					mut = "insert-foreign-keys"
+				case 5:
+					// another value of the same type is decoded while this set is still held, and edited
+					other, _ := f.F.NewFieldList(^raw & 0xFFFF)
+					om := other.Fields()
+					for k := range om {
+						om[k] = !om[k]
+					}
+					if got := fieldMapString(m); got != base {
+						c.fails = append(c.fails, fmt.Sprintf("COPY-FAIL %s.Fields(raw=%#x) changed when another value was decoded and edited: %s, was %s", f.Name, raw, got, base))
+					}
+					mut = "two-live-results"
 				case 0:
 					for k := range m {
 						m[k] = !m[k]
